@@ -40,10 +40,10 @@ def toLbl (o : CObj) (e : Driver.Ev) : Option (Option Lbl) :=
     match e.pt with
     | "COND_WAIT" => e.cur.map (fun t => some (.waitStart t))
     | "BLOCK_BEGIN" => tb.map (fun t => some (.blockBegin t))
-    | "BLOCK_CB_ENQ" => tb.map (fun t => some (.cbEnq t))
+    | "SQ_ENQ" => tb.map (fun t => some (.cbEnq t))
     | "COND_SIGNAL" => e.cur.map (fun t => some (.sigStart t))
     | "COND_BCAST" => e.cur.map (fun t => some (.bcStart t))
-    | "WAKE_DEQ" =>
+    | "SQ_DEQ" =>
         match e.cur, parseOpt e.b with
         | some t, some x => some (some (if o.st.pc t == .sg then .sigDeq t x else .bcDeq t x))
         | _, _ => none
